@@ -143,6 +143,9 @@ class SpecOpts(object):
         self.size_on_elem_ref = False
         self.base_opts = {}          # overrides for gen_asn1.Opts
         self.reuse_member_names = True
+        self.ref_defaults = True      # DEFAULTs on members whose type is a reference (BOOLEAN / INTEGER / ...)
+        self.tree_family = .3         # probability of adding a recursive list family with a constrained reference to it
+        self.tree_keep_names = True   # its members keep distinct names (known finding recursive-placeholder-shared-through-cache)
         self.__dict__.update(kw)
 
 
@@ -169,6 +172,25 @@ def gen_spec(rng, so=None):
             assert n < 50
         return t
 
+    # a recursive list whose cycle goes through an alias, and a type that refers to it with a SIZE constraint:
+    #   Lk ::= SEQUENCE OF Nk   Nk ::= SEQUENCE { id .., kids Ck OPTIONAL }   Ck ::= Lk   Dk ::= SEQUENCE { .., roots Lk (SIZE(a..b)) }
+    if so.recursion and rng.random() < so.tree_family:
+        add_tree_family(rng, g, spec, len(types))
+        td = spec.tdict()
+
+    # DEFAULT on members whose type is a reference to a BOOLEAN / INTEGER / ENUMERATED / BIT STRING / OCTET STRING type
+    if so.ref_defaults:
+        for _, t in types:
+            def rd(x):
+                if x['k'] in ('SEQUENCE', 'SET'):
+                    for m in members_of(x):
+                        if m['t']['k'] == 'REF' and m['opt'] is None and rng.random() < .5 and \
+                                not reaches(td, m['t']['name'], m['t']['name']):
+                            r = rt(m['t'])
+                            if r['k'] in ('BOOLEAN', 'INTEGER', 'ENUMERATED', 'OCTET STRING', 'BIT STRING'):
+                                m['opt'] = ('default', g.gen_value(r, simple=True))
+            walk(t, rd)
+
     # named-bit defaults given as identifier lists
     for _, t in types:
         def nb(x):
@@ -186,7 +208,7 @@ def gen_spec(rng, so=None):
             def cr(x):
                 for h, key in children(x):
                     c = h[key]
-                    if c['k'] == 'REF' and rng.random() < .5 and not reaches(td, c['name'], c['name']):
+                    if c['k'] == 'REF' and rng.random() < .5 and c['name'] != name and not reaches(td, c['name'], name):
                         r = rt(c)
                         if r['k'] in ('SEQUENCE OF', 'SET OF', 'OCTET STRING', 'BIT STRING', 'STRING') and \
                                 r.get('size') is None and not chain_has(td, c, 'size') and not r.get('named') and \
@@ -221,6 +243,8 @@ def gen_spec(rng, so=None):
     if so.reuse_member_names:
         def rn(x):
             if x['k'] in ('SEQUENCE', 'SET', 'CHOICE') and rng.random() < .4:
+                if so.tree_keep_names and any(m.get('keepname') for m in members_of(x)):
+                    return      # known finding recursive-placeholder-shared-through-cache
                 for i, m in enumerate(members_of(x)):
                     m['name'] = 'abcdefghijklmnop'[i % 16] + ('' if i < 16 else str(i))
         for _, t in types:
@@ -235,7 +259,8 @@ def gen_spec(rng, so=None):
             def co(x):
                 if x is t and x['k'] in ('SEQUENCE', 'SET') and rng.random() < .3:
                     cands = [n for n, d in types if d['k'] in ('SEQUENCE', 'SET') and n != name and
-                             not reaches(td, n, name) and not d.get('tag')]
+                             not reaches(td, n, name) and not d.get('tag') and
+                             not (so.tree_keep_names and any(m.get('keepname') for m in members_of(d)))]
                     used = {m['name'] for m in members_of(x)}
                     cands = [n for n in cands if not ({m['name'] for m in expand_root(td, td[n])} & used)]
                     if cands:
@@ -247,6 +272,39 @@ def gen_spec(rng, so=None):
                             retag(x, td)
             walk(t, co)
     return spec, g
+
+
+def add_tree_family(rng, g, spec, k, force_size=False):
+    """Appends Lk / Nk / Ck (/ Dk) to spec.types (see gen_spec)."""
+    leaf = lambda: g.gen_type(99, allow_ref=False)
+    L, N, C, D = 'L%d' % k, 'N%d' % k, 'C%d' % k, 'D%d' % k
+    ref = lambda n: {'k': 'REF', 'name': n, 'size': None, 'c': None}
+    steps = rng.choice([0, 1, 1, 2])                 # alias steps from the node back to the list
+    back = L
+    fam = []
+    for i in range(steps):
+        an = C if i == 0 else '%sx%d' % (C, i)
+        fam.append((an, ref(back)))
+        back = an
+    node_members = [{'name': 'id', 't': leaf(), 'opt': None},
+                    {'name': 'kids', 't': ref(back), 'opt': 'optional', 'keepname': True}]
+    if rng.random() < .3:
+        node = {'k': 'CHOICE', 'root': [{'name': 'leaf', 't': leaf(), 'opt': None},
+                                        {'name': 'kids', 't': ref(back), 'opt': None, 'keepname': True}], 'ext': None}
+    else:
+        node = {'k': 'SEQUENCE', 'root': node_members, 'ext': None}
+    lst = {'k': rng.choice(['SEQUENCE OF', 'SEQUENCE OF', 'SET OF']), 'elem': ref(N), 'size': None}
+    fam += [(L, lst), (N, node)]
+    lo = rng.choice([0, 1, 1, 2])
+    size = {'lo': lo, 'hi': lo + rng.choice([0, 1, 3, 6]), 'ext': rng.random() < .2}
+    user_ref = ref(rng.choice([L, back]))
+    if force_size or rng.random() < .8:
+        user_ref['size'] = size
+    doc = {'k': 'SEQUENCE', 'root': [{'name': 'title', 't': leaf(), 'opt': None},
+                                     {'name': 'roots', 't': user_ref, 'opt': None, 'keepname': True}], 'ext': None}
+    fam.append((D, doc))
+    rng.shuffle(fam)
+    spec.types.extend(fam)
 
 
 def chain_has(td, ref, key):
